@@ -339,7 +339,7 @@ class EarlyStop(object):
         except Exception:
             pass
 
-def parallel_runs(fn, indices, workers=None, wall_limit=None, progress=None):
+def parallel_runs(fn, indices, workers=None, wall_limit=None, progress=None, consume=None):
     """Execute fn(i) for every i in indices in `workers` forked workers with a
     static assignment (position mod W), so the set of executions does not depend
     on W.  fn must return a JSON-able record.  Returns {i: record}.  A worker
@@ -385,6 +385,7 @@ def parallel_runs(fn, indices, workers=None, wall_limit=None, progress=None):
         os.close(wfd)
         procs.append((pid, rfd, bytearray()))
     out = {}
+    done = [0]
     open_fds = {rfd: k for k, (pid, rfd, buf) in enumerate(procs)}
     while open_fds:
         r, _, _ = select.select(list(open_fds), [], [], 5.0)
@@ -403,7 +404,15 @@ def parallel_runs(fn, indices, workers=None, wall_limit=None, progress=None):
                     break
                 i, rec = json.loads(bytes(buf[4:4 + n]).decode())
                 del buf[:4 + n]
-                out[i] = rec
+                done[0] += 1
+                if os.environ.get('VERIF_PROGRESS') and done[0] % max(1, len(indices) // 20) == 0:
+                    sys.stderr.write('[progress] %d/%d runs, %.0fs\n' % (done[0], len(indices), time.monotonic() - t0))
+                    sys.stderr.flush()
+                if consume is not None:
+                    consume(i, rec)         # streaming aggregation: the record is not kept
+                    out[i] = True
+                else:
+                    out[i] = rec
                 if progress:
                     progress(i, rec)
     bad = []
